@@ -87,7 +87,7 @@ func (g *gen) themedDecl(theme string, pl *pools, modern float64) Decl {
 			if d, ok := wide(fam); ok {
 				return d
 			}
-			if g.chance(0.08) {
+			if fam != "inset" && g.chance(0.08) { // `inset: var()` cannot be lowered at all: only in the regression sheet
 				return g.decl(fam, []string{"varx"}, 0, imp)
 			}
 			n := 1 + g.rng.Intn(4)
@@ -436,6 +436,9 @@ func witnesses() []genInput {
 		{ID: "witness-0", Items: []Item{
 			{K: "rule", Path: []PathEl{selEl("p,#s"), selEl(".a")}, Decls: color("red")},
 			{K: "rule", Path: []PathEl{selEl("#s")}, Decls: color("blue")}}},
+		// `&` inside :not() under a list, lowered for a target without :is()
+		{ID: "witness-1", Items: []Item{
+			{K: "rule", Path: []PathEl{selEl(".a,.b"), selEl(":not(&) .c")}, Decls: color("red")}}},
 	}
 	// regression sheets of the defects this check found and that were fixed in /repo
 	one := func(p string, imp bool, vals ...string) Decl {
@@ -450,6 +453,9 @@ func witnesses() []genInput {
 		genInput{ID: "regress-0", Items: []Item{
 			{K: "rule", Path: []PathEl{selEl("div>p"), selEl(":not(&) .c")}, Decls: color("red")},
 			{K: "rule", Path: []PathEl{selEl(".b>.a"), selEl(":is(&,.b)>span")}, Decls: color("blue")}}},
+		// `&` inside a pseudo-class under a parent list without :is(): every copy gets its own member (a90b7f5)
+		genInput{ID: "regress-3", Items: []Item{
+			{K: "rule", Path: []PathEl{selEl("span,a"), selEl(".c:is(&)")}, Decls: color("tan")}}},
 		// an inset that cannot be lowered must not delete the sides before it (c8e39a6)
 		genInput{ID: "regress-1", Items: []Item{
 			{K: "rule", Path: []PathEl{selEl(".a")}, Decls: []Decl{one("top", false, "l1"), one("left", false, "l2"), one("inset", false, "varx")}}}},
